@@ -30,7 +30,8 @@ import (
 var vc16ErrUpload = errors.New("vc16: scripted upload failure")
 
 var (
-	vc16Devs   = []agd.DeviceID{"dev0000a", "dev0000b", "dev0000c", "dev0000d"}
+	// The first two device IDs differ in letter case only.
+	vc16Devs   = []agd.DeviceID{"dev0000a", "dev0000A", "dev0000b", "dev0000c"}
 	vc16Ctrys  = []geoip.Country{geoip.CountryNone, geoip.CountryAD, geoip.CountryCY, geoip.CountryUS, "DE"}
 	vc16Protos = []agd.Protocol{agd.ProtoDNS, agd.ProtoDoH, agd.ProtoDoQ, agd.ProtoDoT, agd.ProtoDNSCrypt}
 	vc16Base   = time.Date(2024, 1, 2, 3, 4, 5, 0, time.UTC)
@@ -71,12 +72,81 @@ func vc16RecStr(r *Record) string {
 // ---------------------------------------------------------------------------
 // history script
 
+// Near-miss modes of a scripted Record call, relative to the device's
+// previous query (ignored for the device's first query).
+const (
+	vc16NearNone    = iota // all fields as scripted
+	vc16NearCtry           // only the country (and the time) differs from the previous query
+	vc16NearASN            // only the ASN differs
+	vc16NearProto          // only the protocol differs
+	vc16NearUnknown        // location unknown as mainmw passes it: country "" and ASN 0 together
+)
+
 // vc16Rec is a scripted Record call.
 type vc16Rec struct {
 	Dev   int
 	Ctry  geoip.Country
 	ASN   geoip.ASN
 	Proto agd.Protocol
+
+	// Near is the near-miss mode.
+	Near int
+
+	// DoneCtx makes the call with an already-cancelled context, as mainmw
+	// does when the request's context is done by the time it records.
+	DoneCtx bool
+}
+
+// vc16Resolve applies the near-miss mode of rc to the previous metadata of
+// the device and returns the fields to record and the class of the call.
+func vc16Resolve(rc *vc16Rec, prev vc16Meta, hasPrev bool) (ctry geoip.Country, asn geoip.ASN, proto agd.Protocol, class string) {
+	ctry, asn, proto = rc.Ctry, rc.ASN, rc.Proto
+	switch {
+	case rc.Near == vc16NearUnknown:
+		ctry, asn = geoip.CountryNone, 0
+		if hasPrev && (prev.Ctry != geoip.CountryNone || prev.ASN != 0) {
+			class = "unknown-location-after-known"
+		}
+	case !hasPrev:
+		// Nothing to be near to.
+	case rc.Near == vc16NearCtry:
+		asn, proto = prev.ASN, prev.Proto
+		if ctry == prev.Ctry {
+			ctry = vc16Ctrys[(vc16Index(vc16Ctrys, ctry)+1)%len(vc16Ctrys)]
+		}
+
+		class = "near-miss-one-field"
+	case rc.Near == vc16NearASN:
+		ctry, proto = prev.Ctry, prev.Proto
+		if asn == prev.ASN {
+			asn++
+		}
+
+		class = "near-miss-one-field"
+	case rc.Near == vc16NearProto:
+		ctry, asn = prev.Ctry, prev.ASN
+		if proto == prev.Proto {
+			proto = vc16Protos[(vc16Index(vc16Protos, proto)+1)%len(vc16Protos)]
+		}
+
+		class = "near-miss-one-field"
+	}
+
+	if class == "" && hasPrev && prev.Ctry == geoip.CountryNone && prev.ASN == 0 && (ctry != geoip.CountryNone || asn != 0) {
+		class = "known-location-after-unknown"
+	}
+
+	return ctry, asn, proto, class
+}
+
+func vc16Index[T comparable](s []T, v T) (i int) {
+	for i = range s {
+		if s[i] == v {
+			return i
+		}
+	}
+
+	return 0
 }
 
 // vc16Op is an operation performed while an upload is in flight.
@@ -87,10 +157,11 @@ type vc16Op struct {
 
 // Context modes of one Refresh call.
 const (
-	vc16CtxLive      = iota // context stays live
-	vc16CtxCancelled        // already cancelled when Refresh is called
-	vc16CtxExpired          // already past its deadline when Refresh is called
-	vc16CtxCancelMid        // cancelled by the uploader while the upload is in flight
+	vc16CtxLive         = iota // context stays live
+	vc16CtxCancelled           // already cancelled when Refresh is called
+	vc16CtxExpired             // already past its deadline when Refresh is called
+	vc16CtxCancelMid           // cancelled by the uploader while the upload is in flight
+	vc16CtxLiveDeadline        // live, with a far deadline and a logger value, as the refresh worker passes it
 )
 
 // vc16Upload is the script of one Refresh and its upload attempt.  With a
@@ -243,7 +314,12 @@ func (x *vc16Run) history() string {
 		ind := strings.Repeat("  ", e.depth)
 		switch e.kind {
 		case 'r':
-			fmt.Fprintf(sb, "%3d %sRecord(%s, %s)\n", i, ind, e.dev, e.meta)
+			fmt.Fprintf(sb, "%3d %sRecord(%s, %s)", i, ind, e.dev, e.meta)
+			if e.fail {
+				sb.WriteString(" [ctx already cancelled]")
+			}
+
+			sb.WriteByte('\n')
 		case 'b':
 			fmt.Fprintf(sb, "%3d %sUpload begins (scripted fail=%t) with %s\n", i, ind, e.fail, vc16MapStr(e.snap))
 		case 'e':
@@ -412,10 +488,24 @@ func (x *vc16Run) checkInv(where string) {
 func (x *vc16Run) record(rc *vc16Rec) {
 	x.n++
 	d := vc16Devs[rc.Dev]
-	m := vc16Meta{N: x.n, Time: vc16Base.Add(time.Duration(x.n) * time.Second), Ctry: rc.Ctry, ASN: rc.ASN, Proto: rc.Proto}
-	x.events = append(x.events, vc16Event{kind: 'r', depth: len(x.inflight), dev: d, meta: m})
+	prev, hasPrev := x.last[d]
+	ctry, asn, proto, class := vc16Resolve(rc, prev, hasPrev)
+	if class != "" {
+		x.classes[class] = true
+	}
 
-	x.r.Record(x.ctx, d, m.Ctry, m.ASN, m.Time, m.Proto)
+	m := vc16Meta{N: x.n, Time: vc16Base.Add(time.Duration(x.n) * time.Second), Ctry: ctry, ASN: asn, Proto: proto}
+	x.events = append(x.events, vc16Event{kind: 'r', depth: len(x.inflight), dev: d, meta: m, fail: rc.DoneCtx})
+
+	ctx := x.ctx
+	if rc.DoneCtx {
+		var cancel context.CancelFunc
+		ctx, cancel = context.WithCancel(ctx)
+		cancel()
+		x.classes["record-with-done-context"] = true
+	}
+
+	x.r.Record(ctx, d, m.Ctry, m.ASN, m.Time, m.Proto)
 
 	x.recorded[d]++
 	x.last[d] = m
@@ -462,6 +552,11 @@ func (x *vc16Run) refresh(u *vc16Upload) {
 		ctx, u.cancel = context.WithCancel(ctx)
 		defer u.cancel()
 		ctxTxt = " [ctx cancelled by the uploader in flight]"
+	case vc16CtxLiveDeadline:
+		var cancel context.CancelFunc
+		ctx, cancel = context.WithTimeout(slogutil.ContextWithLogger(ctx, slogutil.NewDiscardLogger()), 24*time.Hour)
+		defer cancel()
+		x.classes["refresh-with-worker-context"] = true
 	}
 
 	if u.Ctx == vc16CtxCancelled || u.Ctx == vc16CtxExpired {
@@ -670,10 +765,12 @@ var vc16Patterns = func() (ps [][]bool) {
 
 func vc16DrawRec(t *rapid.T, nDev int) (rc vc16Rec) {
 	return vc16Rec{
-		Dev:   rapid.IntRange(0, nDev-1).Draw(t, "dev"),
-		Ctry:  rapid.SampledFrom(vc16Ctrys).Draw(t, "ctry"),
-		ASN:   geoip.ASN(rapid.OneOf(rapid.SampledFrom([]uint32{0, 1, 42, 65535, 4294967295}), rapid.Uint32()).Draw(t, "asn")),
-		Proto: rapid.SampledFrom(vc16Protos).Draw(t, "proto"),
+		Dev:     rapid.IntRange(0, nDev-1).Draw(t, "dev"),
+		Ctry:    rapid.SampledFrom(vc16Ctrys).Draw(t, "ctry"),
+		ASN:     geoip.ASN(rapid.OneOf(rapid.SampledFrom([]uint32{0, 1, 42, 65535, 4294967295}), rapid.Uint32()).Draw(t, "asn")),
+		Proto:   rapid.SampledFrom(vc16Protos).Draw(t, "proto"),
+		Near:    rapid.SampledFrom([]int{vc16NearNone, vc16NearNone, vc16NearCtry, vc16NearASN, vc16NearProto, vc16NearUnknown, vc16NearNone}).Draw(t, "near"),
+		DoneCtx: rapid.IntRange(0, 5).Draw(t, "recDoneCtx") == 3,
 	}
 }
 
@@ -682,7 +779,7 @@ func vc16DrawUpload(t *rapid.T, nDev int, fail bool, depth int) (u *vc16Upload) 
 	// 0..11: 7 in 12 live; rapid biases towards 0, so the rarer modes are
 	// the low numbers.
 	u.Ctx = []int{vc16CtxCancelled, vc16CtxExpired, vc16CtxCancelMid, vc16CtxCancelled, vc16CtxCancelMid,
-		vc16CtxLive, vc16CtxLive, vc16CtxLive, vc16CtxLive, vc16CtxLive, vc16CtxLive, vc16CtxLive}[rapid.IntRange(0, 11).Draw(t, "ctxMode")]
+		vc16CtxLive, vc16CtxLive, vc16CtxLive, vc16CtxLive, vc16CtxLiveDeadline, vc16CtxLiveDeadline, vc16CtxLiveDeadline}[rapid.IntRange(0, 11).Draw(t, "ctxMode")]
 	n := rapid.SampledFrom([]int{0, 0, 1, 1, 2, 3}).Draw(t, "nDuring")
 	for i := 0; i < n; i++ {
 		if depth == 0 && rapid.IntRange(0, 39).Draw(t, "nested") == 23 {
@@ -700,10 +797,11 @@ func vc16DrawUpload(t *rapid.T, nDev int, fail bool, depth int) (u *vc16Upload) 
 
 func TestVerifC16History(t *testing.T) {
 	st := vstat.New("C16", "billstat.history",
-		"rapid histories: S/F pattern (all 126 patterns of length<=6 drawn by index, or random of length 7..10) x per Refresh a context mode (live | already cancelled | already past its deadline | cancelled by the uploader in flight) x per round 0..3 records before and 0..3 operations (record | rare overlapping Refresh) performed re-entrantly inside the scripted Upload, 1..3 devices; conservation + last-writer metadata checked after every real call; non-trivial = a failed upload holding device d, then a Record(d) (during or after it), then a successful upload holding d; distinct by (devices, outcomes, placement)",
+		"rapid histories: S/F pattern (all 126 patterns of length<=6 drawn by index, or random of length 7..10) x per Refresh a context mode (live | already cancelled | already past its deadline | cancelled by the uploader in flight) x per round 0..3 records (each: independent metadata | exactly one of country/ASN/protocol changed against the device's previous query | unknown location; sometimes with an already-cancelled context; two of the device IDs differ in letter case only) before and 0..3 operations (record | rare overlapping Refresh) performed re-entrantly inside the scripted Upload, 1..3 devices; conservation + last-writer metadata checked after every real call; non-trivial = a failed upload holding device d, then a Record(d) (during or after it), then a successful upload holding d; distinct by (devices, outcomes, placement)",
 		"fail-then-record-then-success", "record-during-failed-upload", "remerge-into-newer-record",
 		"remerge-restores-record", "remerge-mixed", "fail-streak>=2", "record-during-successful-upload", "overlapping-refresh",
-		"refresh-with-done-context-nonempty", "refresh-with-cancelled-context-nonempty", "refresh-with-expired-context-nonempty", "cancelled-in-flight-nonempty")
+		"refresh-with-done-context-nonempty", "refresh-with-cancelled-context-nonempty", "refresh-with-expired-context-nonempty", "cancelled-in-flight-nonempty",
+		"near-miss-one-field", "unknown-location-after-known", "known-location-after-unknown", "record-with-done-context")
 	st.Finish(t)
 
 	seenPat := map[int]struct{}{}
@@ -780,7 +878,10 @@ func vc16Slots(pres, durings [][]int) (slots []vc16Slot) {
 }
 
 func vc16DetRec(dev, k int) (rc vc16Rec) {
-	return vc16Rec{Dev: dev, Ctry: vc16Ctrys[k%len(vc16Ctrys)], ASN: geoip.ASN(1000 + k*7), Proto: vc16Protos[(k/2)%len(vc16Protos)]}
+	return vc16Rec{
+		Dev: dev, Ctry: vc16Ctrys[k%len(vc16Ctrys)], ASN: geoip.ASN(1000 + k*7), Proto: vc16Protos[(k/2)%len(vc16Protos)],
+		Near: (k + k/5) % 5, DoneCtx: k%7 == 3,
+	}
 }
 
 // vc16Enumerate runs every history of exactly l rounds over slots.
@@ -846,10 +947,11 @@ func vc16Next(idx []int, base int) (ok bool) {
 
 func TestVerifC16Patterns(t *testing.T) {
 	st := vstat.New("C16", "billstat.patterns",
-		"bounded-exhaustive: every S/F pattern of length<=6; per round every placement from a fixed set. Length<=3 (thorough: <=5): records before in {none,a,b,ab} x records during the upload in {none,a,b} (24 slots/round, full product). Length 4 (thorough: 6): before in {none,a,ab} x during in {none,a} (12 slots/round). Quick only, lengths 5..6: {a before | a during | ab before + b during} (6 slots/round). Context faults (Refresh with an already-cancelled or already-expired context, or a context the uploader cancels in flight) are added as 18 further slots/round for length<=3 (thorough <=4) and as 2 slots/round for lengths 4..5 in quick. Non-trivial as in billstat.history",
+		"bounded-exhaustive: every S/F pattern of length<=6; per round every placement from a fixed set. Length<=3 (thorough: <=5): records before in {none,a,b,ab} x records during the upload in {none,a,b} (24 slots/round, full product). Length 4 (thorough: 6): before in {none,a,ab} x during in {none,a} (12 slots/round). Quick only, lengths 5..6: {a before | a during | ab before + b during} (6 slots/round). Context faults (Refresh with an already-cancelled or already-expired context, or a context the uploader cancels in flight) are added as 18 further slots/round for length<=3 and as 2 slots/round for lengths 4..5 in quick (length 4 in thorough). Non-trivial as in billstat.history",
 		"fail-then-record-then-success", "record-during-failed-upload", "remerge-into-newer-record",
 		"remerge-restores-record", "remerge-mixed", "fail-streak>=3", "patlen-6",
-		"refresh-with-done-context-nonempty", "refresh-with-cancelled-context-nonempty", "refresh-with-expired-context-nonempty", "cancelled-in-flight-nonempty")
+		"refresh-with-done-context-nonempty", "refresh-with-cancelled-context-nonempty", "refresh-with-expired-context-nonempty", "cancelled-in-flight-nonempty",
+		"near-miss-one-field", "unknown-location-after-known", "known-location-after-unknown", "record-with-done-context")
 	st.Finish(t)
 
 	// Slot sets: full (24 per round), mid (12 per round), small (6 per round).
@@ -886,10 +988,10 @@ func TestVerifC16Patterns(t *testing.T) {
 	fullCtx, midCtx, smallCtx := join(full, ctxAll), join(mid, ctxTwo), join(small, ctxTwo)
 
 	// quick: full+ctx (42) <=3, mid+2 (14) 4, small+2 (8) 5, small (6) 6;
-	// thorough: full+ctx <=4, full 5, mid 6.
+	// thorough: full+ctx <=3, full+2 (26) 4, full 5, mid 6.
 	sets := [][]vc16Slot{1: fullCtx, 2: fullCtx, 3: fullCtx, 4: midCtx, 5: smallCtx, 6: small}
 	if vstat.Thorough() {
-		sets = [][]vc16Slot{1: fullCtx, 2: fullCtx, 3: fullCtx, 4: fullCtx, 5: full, 6: mid}
+		sets = [][]vc16Slot{1: fullCtx, 2: fullCtx, 3: fullCtx, 4: join(full, ctxTwo), 5: full, 6: mid}
 	}
 
 	for l := 1; l <= 6; l++ {
